@@ -247,7 +247,11 @@ class Gen:
                     f = r.random(); num, den = f.as_integer_ratio(); e = den.bit_length() - 1
                 main.append(f'cfgpercent {num} {e}')
             elif c == 'cfgbuffered': main.append(f'cfgbuffered {r.choice([0, 1, 1, 2, 3, 5])}')
-            elif c == 'arm': main.append(f"arm {r.choice(['trace', 'trace', 'fin', 'drop', 'action', 'closure'])} {r.choice([1, 1, 2, 2, 3, 4, 6])}")
+            elif c == 'arm':
+                main.append(f"arm {r.choice(['trace', 'trace', 'fin', 'drop', 'drop', 'action', 'closure'])} {r.choice([1, 1, 2, 2, 3, 4, 6])}")
+                if r.random() < 0.5:
+                    # make garbage and collect right away so that the fuse fires inside the collector
+                    a = self.slot(occ, True); main.append(f'drop s{a}'); occ[a] = False; main.append('collect')
             elif c == 'panic': main.append('panic')
         return self.render(main)
 
